@@ -51,7 +51,7 @@ TRUSTED = [
     "Model/Align.lean (Plugin.iter, property C08) for several same-kind targets",
 ]
 ASSUMPTIONS = [
-    "seconds_range values are dyadic rationals for which the float product 1e9*s is exact; run start comes from the data "
+    "seconds_range values are rationals n/d whose float conversion int(1e9*(n/d)) equals the exact truncation of 1e9*n/d (dyadic values and most k/1e9), also at an epoch-scale run start (1.7e18 > 2^53); run start comes from the data "
     "(no run-metadata document in the DataDirectory)",
     "ordinary runs only (time ranges on superruns raise NotImplementedError in get_components; C14)",
     "rechunk_on_load=False (default); chunk_number requests not generated",
